@@ -30,6 +30,7 @@ def scenarios(tier):
         out.append(dict(name=f"others-{layout}-{adv}-p{per}", fn="others", params=dict(layout=layout, adv=adv, per=per, nsteps=3 if q else 4), cost=10))
     # vertical advection switched on (the vertical velocity is one more per-particle forcing array)
     out.append(dict(name="others-sparse-EF-p1-ibmfield", fn="others", params=dict(layout="sparse", adv="EF", per=1, nsteps=3, degdays=True, rbmax=1), cost=12))
+    out.append(dict(name="others-sparse-EF-p1-ibmdirect", fn="others", params=dict(layout="sparse", adv="EF", per=1, nsteps=3, degdays="direct", rbmax=0), cost=12))
     out.append(dict(name="others-sparse-EF-p1-vertadv", fn="others", params=dict(layout="sparse", adv="EF", per=1, nsteps=2 if q else 3, vertadv=True, rbmax=0 if q else 1), cost=12))
     if not q:
         out.append(dict(name="reorder-sparse-EF", fn="reorder", params=dict(layout="sparse", adv="EF", nsteps=3), cost=10))
@@ -55,6 +56,7 @@ def _files(W, tmp, t_first, uvals):
 
 
 def _run(W, tmp, sub, rows, t0, nsteps, uvals, layout="sparse", adv="EF", per=1, kill=None, vertadv=False, degdays=False):
+    direct = degdays == "direct"
     sub.mkdir(exist_ok=True)
     W.table(sub / "r.rls", ["release_time", "X", "Y", "Z"], rows)
     ivars = dict(pid=ovar("i4"), X=ovar("f8"), Y=ovar("f8"), Z=ovar("f8"), temp=ovar("f8"))
@@ -67,6 +69,11 @@ def _run(W, tmp, sub, rows, t0, nsteps, uvals, layout="sparse", adv="EF", per=1,
     if degdays:
         # an IBM that reads the temperature through forcing.field() and accumulates it
         cfg["ibm"]["degdays"] = "temp"
+        cfg["ibm"]["direct"] = direct
+        cfg["ibm"]["ucur"] = True
+        cfg["state"]["instance_variables"]["ucur"] = float
+        cfg["state"]["default_values"]["ucur"] = 0
+        cfg["output"]["instance_variables"]["ucur"] = ovar("f8")
         cfg["state"]["instance_variables"]["degdays"] = float
         cfg["state"]["default_values"]["degdays"] = 0
         cfg["output"]["instance_variables"]["degdays"] = ovar("f8")
@@ -79,7 +86,7 @@ def _run(W, tmp, sub, rows, t0, nsteps, uvals, layout="sparse", adv="EF", per=1,
     return W.nc_read(sub / "out.nc")
 
 
-def _tracks(W, d, layout, npids):
+def _tracks(W, d, layout, npids, extra=()):
     """-> {pid: [(record, X, Y, Z, temp)]}"""
     V = d["vars"]
     out = {}
@@ -90,14 +97,14 @@ def _tracks(W, d, layout, npids):
             c = int(V["particle_count"][r])
             for q in range(c):
                 pid = int(V["pid"][off + q])
-                out.setdefault(pid, []).append((r, V["X"][off + q], V["Y"][off + q], V["Z"][off + q], V["temp"][off + q]))
+                out.setdefault(pid, []).append((r, V["X"][off + q], V["Y"][off + q], V["Z"][off + q], V["temp"][off + q], *[V[e][off + q] for e in extra]))
             off += c
     else:
         for r in range(nrec):
             for pid in range(npids):
                 row = V["X"][r]
                 if pid < len(row) and not W.is_fill(row[pid]):
-                    out.setdefault(pid, []).append((r, V["X"][r][pid], V["Y"][r][pid], V["Z"][r][pid], V["temp"][r][pid]))
+                    out.setdefault(pid, []).append((r, V["X"][r][pid], V["Y"][r][pid], V["Z"][r][pid], V["temp"][r][pid], *[V[e][r][pid] for e in extra]))
     return out
 
 
@@ -121,8 +128,9 @@ def others(W, p):
     rowB = [W.dt(T0 + rb * DT), xb, W.frac(5, 2), zb]  # the observed particle
     both = _run(W, tmp, tmp / "both", [rowA, rowB], T0, nsteps, uv, layout, p["adv"], p["per"], kill={kstep: {0: kflag}}, vertadv=p.get("vertadv", False), degdays=p.get("degdays", False))
     alone = _run(W, tmp, tmp / "alone", [rowB], T0, nsteps, uv, layout, p["adv"], p["per"], vertadv=p.get("vertadv", False), degdays=p.get("degdays", False))
-    tb = _tracks(W, both, layout, 2).get(1, [])
-    ta = _tracks(W, alone, layout, 1).get(0, [])
+    extra = ("degdays", "ucur") if p.get("degdays") else ()
+    tb = _tracks(W, both, layout, 2, extra).get(1, [])
+    ta = _tracks(W, alone, layout, 1, extra).get(0, [])
     conds = [len(tb) == len(ta)]
     for (r1, *v1), (r2, *v2) in zip(tb, ta):
         conds.append(r1 == r2)
